@@ -63,6 +63,13 @@ def _cases(tier):
                 if tier == "quick" and len({v0, v1, v2}) < 2:
                     continue
                 yield {"h": [["J", A.varied_merge_samples(v0, v1, v2, False)[0]]], "cfg": "ir+pydantic+dc"}
+    # four members of one merged class, one of them a list with an object that lacks the field: plain X, another kind and
+    # Optional[X] meet in every relative order inside one merge
+    for vs in itertools.product(A.VARIED_CHAIN_ATOMS, repeat=4):
+        if len(set(vs)) < 2 or (tier == "quick" and len(set(vs)) > 3):
+            continue
+        for rows_at in range(4):
+            yield {"h": [["J", A.varied_merge_chain(list(vs), rows_at)[0]]], "cfg": "ir+pydantic+dc"}
     # dict-option axis
     for opts in DICT_OPTS:
         for h in A.histories(DICT_OBJS, hd):
